@@ -1222,11 +1222,19 @@ class Component(composites.Composite, metaclass=ComponentType):
         """
         # take the current links out (they cannot go through the pickle machinery); the ones to put
         # back are those that existed when the backup was made
-        self._getLinkedDimsAndValues()
+        currentLinkedDims = self._getLinkedDimsAndValues()
         linkedDims, self._backupLinkedDims = getattr(
             self, "_backupLinkedDims", None
         ) or ([], None)
         composites.Composite.restoreBackup(self, paramsToApply)
+        if paramsToApply and (currentLinkedDims or linkedDims):
+            # a dimension that is to be kept stays what it is now: its number, or its current link
+            kept = {
+                pd.fieldName
+                for pd in set(paramsToApply).intersection(self.p.paramDefs)
+            }
+            linkedDims = [dim for dim in linkedDims if dim[0] not in kept]
+            linkedDims += [dim for dim in currentLinkedDims if dim[0] in kept]
         self._restoreLinkedDims(linkedDims)
 
     def _getLinkedDimsAndValues(self):
